@@ -76,6 +76,17 @@ Example scripted_reset_backs_off :
   connected s = true /\ opn s = [2] /\ tie s = false.
 Proof. vm_compute. repeat split; auto 20. Qed.
 
+(* a loss the CONTROLLER initiates: an API request on the established session gets an unusable reply (control
+   BadReply) or the re-subscribe request does (verify outcome okbad) and the controller hangs up itself; the
+   connection_lost that follows is not an abandoned one, so a fresh connector starts at once *)
+Example hang_up_after_bad_reply_reconnects :
+  let s := run [0] true [DConnect 0; DConnect 0; DConnect 0] [(VOkBad, 500%N, 0%N); (VOk, 0%N, 0%N); (VOk, 0%N, 0%N)]
+               [(1%N, Ensure 1); (9001%N, BadReply 1)] 20001%N in
+  In (501%N, EvClosed 1) (trace s) /\ In (501%N, EvOpened 2 0) (trace s) /\
+  In (9001%N, EvClosed 2) (trace s) /\ In (9001%N, EvOpened 3 0) (trace s) /\
+  connected s = true /\ opn s = [3] /\ count_dials (trace s) = 3 /\ tie s = false.
+Proof. vm_compute. repeat split; auto 30. Qed.
+
 (* no busy loop: the chain of immediate (no back-off) retries inside one step always ends
    within 2 + |hosts| + |advertised addresses| attempts - the cascade never runs out of fuel *)
 Theorem immediate_retry_bounded : forall s f t, reachable s ->
